@@ -25,40 +25,119 @@ pub struct SB(i64);
 impl Component for SB {
     type Storage = HashMapStorage<Self>;
 }
+/// The reference component.  Up to four references are held in a shape whose
+/// conversion is DERIVED (unit / tuple / named-field enum variants of `Entity`);
+/// longer lists use a hand-written conversion that converts the references one
+/// by one with the library's own `Entity` conversion.
+#[derive(Clone, Debug, specs::ConvertSaveload)]
+pub enum RefShape {
+    Nil,
+    One(Entity),
+    Pair(Entity, Entity),
+    Named { first: Entity, second: Entity, third: Entity },
+    Quad(Entity, Entity, Entity, Entity),
+}
+
 #[derive(Clone, Debug)]
-pub struct SRefs(Vec<Entity>);
+pub enum SRefs {
+    Shape(RefShape),
+    Long(Vec<Entity>),
+}
 impl Component for SRefs {
     type Storage = DenseVecStorage<Self>;
 }
+impl SRefs {
+    pub fn new(v: Vec<Entity>) -> SRefs {
+        match v.len() {
+            0 => SRefs::Shape(RefShape::Nil),
+            1 => SRefs::Shape(RefShape::One(v[0])),
+            2 => SRefs::Shape(RefShape::Pair(v[0], v[1])),
+            3 => SRefs::Shape(RefShape::Named { first: v[0], second: v[1], third: v[2] }),
+            4 => SRefs::Shape(RefShape::Quad(v[0], v[1], v[2], v[3])),
+            _ => SRefs::Long(v),
+        }
+    }
+    pub fn list(&self) -> Vec<Entity> {
+        match self {
+            SRefs::Shape(RefShape::Nil) => vec![],
+            SRefs::Shape(RefShape::One(a)) => vec![*a],
+            SRefs::Shape(RefShape::Pair(a, b)) => vec![*a, *b],
+            SRefs::Shape(RefShape::Named { first, second, third }) => vec![*first, *second, *third],
+            SRefs::Shape(RefShape::Quad(a, b, c, d)) => vec![*a, *b, *c, *d],
+            SRefs::Long(v) => v.clone(),
+        }
+    }
+}
 
-/// references are converted one by one with the library's own `Entity` conversion
+/// serialised form of the reference component
+#[derive(Serialize, Deserialize)]
+#[serde(bound = "M: Marker")]
+pub enum SRefsData<M: Marker> {
+    Shape(<RefShape as ConvertSaveload<M>>::Data),
+    Long(Vec<M>),
+}
+impl<M: Marker> SRefsData<M> {
+    pub fn new(v: Vec<M>) -> SRefsData<M> {
+        let mut it = v.clone().into_iter();
+        let mut nx = || it.next().unwrap();
+        match v.len() {
+            0 => SRefsData::Shape(RefShapeSaveloadData::Nil),
+            1 => SRefsData::Shape(RefShapeSaveloadData::One(nx())),
+            2 => SRefsData::Shape(RefShapeSaveloadData::Pair(nx(), nx())),
+            3 => SRefsData::Shape(RefShapeSaveloadData::Named { first: nx(), second: nx(), third: nx() }),
+            4 => SRefsData::Shape(RefShapeSaveloadData::Quad(nx(), nx(), nx(), nx())),
+            _ => SRefsData::Long(v),
+        }
+    }
+    pub fn list(&self) -> Vec<M> {
+        match self {
+            SRefsData::Shape(RefShapeSaveloadData::Nil) => vec![],
+            SRefsData::Shape(RefShapeSaveloadData::One(a)) => vec![a.clone()],
+            SRefsData::Shape(RefShapeSaveloadData::Pair(a, b)) => vec![a.clone(), b.clone()],
+            SRefsData::Shape(RefShapeSaveloadData::Named { first, second, third }) => vec![first.clone(), second.clone(), third.clone()],
+            SRefsData::Shape(RefShapeSaveloadData::Quad(a, b, c, d)) => vec![a.clone(), b.clone(), c.clone(), d.clone()],
+            SRefsData::Long(v) => v.clone(),
+        }
+    }
+}
+
 impl<M: Marker + Serialize> ConvertSaveload<M> for SRefs
 where
     for<'de> M: Deserialize<'de>,
 {
-    type Data = Vec<M>;
+    type Data = SRefsData<M>;
     type Error = NoError;
 
     fn convert_into<F>(&self, mut ids: F) -> Result<Self::Data, Self::Error>
     where
         F: FnMut(Entity) -> Option<M>,
     {
-        let mut v = vec![];
-        for e in &self.0 {
-            v.push(<Entity as ConvertSaveload<M>>::convert_into(e, &mut ids).unwrap());
+        match self {
+            SRefs::Shape(sh) => Ok(SRefsData::Shape(<RefShape as ConvertSaveload<M>>::convert_into(sh, &mut ids).unwrap())),
+            SRefs::Long(es) => {
+                let mut v = vec![];
+                for e in es {
+                    v.push(<Entity as ConvertSaveload<M>>::convert_into(e, &mut ids).unwrap());
+                }
+                Ok(SRefsData::Long(v))
+            }
         }
-        Ok(v)
     }
 
     fn convert_from<F>(data: Self::Data, mut ids: F) -> Result<Self, Self::Error>
     where
         F: FnMut(M) -> Option<Entity>,
     {
-        let mut v = vec![];
-        for m in data {
-            v.push(<Entity as ConvertSaveload<M>>::convert_from(m, &mut ids).unwrap());
+        match data {
+            SRefsData::Shape(d) => Ok(SRefs::Shape(<RefShape as ConvertSaveload<M>>::convert_from(d, &mut ids).unwrap())),
+            SRefsData::Long(ms) => {
+                let mut v = vec![];
+                for m in ms {
+                    v.push(<Entity as ConvertSaveload<M>>::convert_from(m, &mut ids).unwrap());
+                }
+                Ok(SRefs::Long(v))
+            }
         }
-        Ok(SRefs(v))
     }
 }
 
@@ -88,7 +167,7 @@ impl MarkerJs for UuidMarker {
     }
 }
 
-type Comps<M> = (Option<SA>, Option<SB>, Option<Vec<M>>);
+type Comps<M> = (Option<SA>, Option<SB>, Option<SRefsData<M>>);
 type Recs<M> = Vec<EntityData<M, Comps<M>>>;
 
 fn hj(e: Entity) -> Value {
@@ -120,7 +199,7 @@ fn obs<M: MarkerJs>(w: &World) -> Value {
                 ms.get(e).map(|m| json!([m.idjs()])).unwrap_or(json!([])),
                 a.get(e).map(|x| json!([x.0])).unwrap_or(json!([])),
                 b.get(e).map(|x| json!([x.0])).unwrap_or(json!([])),
-                r.get(e).map(|x| json!([x.0.iter().map(|&t| hj(t)).collect::<Vec<_>>()])).unwrap_or(json!([])),
+                r.get(e).map(|x| json!([x.list().iter().map(|&t| hj(t)).collect::<Vec<_>>()])).unwrap_or(json!([])),
             ])
         })
         .collect();
@@ -135,7 +214,7 @@ fn recs_js<M: MarkerJs>(recs: &Recs<M>) -> Value {
                 "m": r.marker.idjs(),
                 "a": r.components.0.as_ref().map(|x| json!([x.0])).unwrap_or(json!([])),
                 "b": r.components.1.as_ref().map(|x| json!([x.0])).unwrap_or(json!([])),
-                "r": r.components.2.as_ref().map(|x| json!([x.iter().map(|m| m.idjs()).collect::<Vec<_>>()])).unwrap_or(json!([])),
+                "r": r.components.2.as_ref().map(|x| json!([x.list().iter().map(|m| m.idjs()).collect::<Vec<_>>()])).unwrap_or(json!([])),
             })
         })
         .collect();
@@ -362,7 +441,7 @@ where
                                 let mut st = w.write_storage::<SRefs>();
                                 if let Some(a) = v.as_array() {
                                     let ts: Vec<Entity> = a.iter().filter_map(|k| h(k, &handles)).collect();
-                                    let _ = st.insert(e, SRefs(ts.clone()));
+                                    let _ = st.insert(e, SRefs::new(ts.clone()));
                                     vj = json!([ts.iter().map(|&t| hj(t)).collect::<Vec<_>>()]);
                                 } else {
                                     st.remove(e);
@@ -458,7 +537,7 @@ where
                             components: (
                                 r["a"].as_u64().map(|x| SA(x as u32)),
                                 r["b"].as_i64().map(SB),
-                                r["r"].as_array().map(|a| a.iter().map(M::from_js).collect()),
+                                r["r"].as_array().map(|a| SRefsData::new(a.iter().map(M::from_js).collect())),
                             ),
                         })
                         .collect();
